@@ -9,39 +9,74 @@ import lena.core
 
 class Tok(object):
     """Tiny value with a provenance serial.  Weak-referenceable, picklable,
-    deep-copyable (a deep copy is registered as a copy, not an original)."""
+    deep-copyable (a deep copy is registered as a copy, not an original).
+    *tag* records the Split branches the value went through."""
 
-    __slots__ = ("serial", "stage", "orig", "__weakref__")
+    __slots__ = ("serial", "stage", "orig", "tag", "__weakref__")
 
-    def __init__(self, serial, stage=0, orig=True):
+    def __init__(self, serial, stage=0, orig=True, tag=()):
         self.serial = serial
         self.stage = stage
         self.orig = orig
+        self.tag = tag
+
+    def derive(self, tag=None):
+        """A new (non-original) token with the same provenance."""
+        return Tok(self.serial, self.stage + 1, False, self.tag if tag is None else tag)
 
     def __deepcopy__(self, memo):
-        return Tok(self.serial, self.stage, False)
+        return Tok(self.serial, self.stage, False, self.tag)
 
     def __copy__(self):
-        return Tok(self.serial, self.stage, False)
+        return Tok(self.serial, self.stage, False, self.tag)
 
     def __reduce__(self):
-        return (Tok, (self.serial, self.stage, False))
+        return (Tok, (self.serial, self.stage, False, self.tag))
 
     def __eq__(self, other):
         return (isinstance(other, Tok) and self.serial == other.serial
-                and self.stage == other.stage)
+                and self.stage == other.stage and self.tag == other.tag)
 
     def __ne__(self, other):
         return not self.__eq__(other)
 
     def __hash__(self):
-        return hash((self.serial, self.stage))
+        return hash((self.serial, self.stage, self.tag))
 
     def __repr__(self):
-        return "Tok(%d.%d)" % (self.serial, self.stage)
+        return "Tok(%d.%d%s)" % (self.serial, self.stage, "".join("/%s" % (t,) for t in self.tag))
 
     def _sim_summary(self):
-        return ("Tok", self.serial, self.stage)
+        return ("Tok", self.serial, self.stage, self.tag)
+
+
+def tok_of(value):
+    if isinstance(value, Tok):
+        return value
+    if isinstance(value, tuple):
+        for x in value:
+            t = tok_of(x)
+            if t is not None:
+                return t
+    return None
+
+
+def key_of(value):
+    """(serial, tag): unique per value inside one stream."""
+    t = tok_of(value)
+    if t is None:
+        return None
+    return (t.serial, t.tag)
+
+
+def bump(value, tag=None):
+    """The 1:1 transformation used by probe callables: same provenance,
+    new (non-original) token; context (if any) is kept."""
+    if isinstance(value, Tok):
+        return value.derive(tag)
+    if isinstance(value, tuple) and len(value) == 2 and isinstance(value[0], Tok):
+        return (value[0].derive(tag), value[1])
+    raise TypeError("bump: unexpected value %r" % (value,))
 
 
 def serial_of(value):
